@@ -6,11 +6,11 @@ metric values symbolic (they decide who is cloned / promoted), arrival order ins
 batch sizes symbolic."""
 from symx.runner import Ob, run_property
 from harness.common import make
-from harness.tunersim import Monitor, Spy, ScriptBackend, LoopCallback, make_tuner
+from harness.tunersim import Monitor, spy_on, ScriptBackend, LoopCallback, make_tuner
 from props import c01
 
 
-def h_ckpt(sym, scheduler="pbt", W=2, T=3, K=1, delete=True, max_t=2, P=8, early_removal=False, E=5):
+def h_ckpt(sym, scheduler="pbt", W=2, T=3, K=1, delete=True, max_t=2, P=8, early_removal=False, E=5, max_fail=0, rungs=None):
     from syne_tune import StoppingCriterion
     from symx import stubs
     from syne_tune.config_space import uniform
@@ -39,13 +39,18 @@ def h_ckpt(sym, scheduler="pbt", W=2, T=3, K=1, delete=True, max_t=2, P=8, early
         from syne_tune.optimizer.schedulers.synchronous import SynchronousGeometricHyperbandScheduler
         stubs.shim_modules(["syne_tune.optimizer.schedulers.synchronous.hyperband_bracket"])
         cs = {"x": uniform(0, 1), "epochs": max_t}
-        inner = make(SynchronousGeometricHyperbandScheduler, cs, metric="m", mode="min", resource_attr="r",
-                     max_resource_attr="epochs", grace_period=1, reduction_factor=2, brackets=1, random_seed=0)
+        if rungs:
+            from syne_tune.optimizer.schedulers.synchronous.hyperband import SynchronousHyperbandScheduler
+            inner = make(SynchronousHyperbandScheduler, cs, bracket_rungs=[[tuple(x) for x in r] for r in rungs], metric="m", mode="min",
+                         resource_attr="r", max_resource_attr="epochs", random_seed=0)
+        else:
+            inner = make(SynchronousGeometricHyperbandScheduler, cs, metric="m", mode="min", resource_attr="r",
+                         max_resource_attr="epochs", grace_period=1, reduction_factor=2, brackets=1, random_seed=0)
         R_of = lambda be, tid: be._trial_dict[tid].config["epochs"] if tid in be._trial_dict else 1
     else:
         raise AssertionError(scheduler)
-    sch = Spy(inner, mon)
-    be = ScriptBackend(sym, mon, R=max_t, K=K, J=0, max_fail=0, Z=0, P=P, delete_checkpoints=delete, value_fn=value_fn, R_of=R_of)
+    sch = spy_on(inner, mon)
+    be = ScriptBackend(sym, mon, R=max_t, K=K, J=0, max_fail=max_fail, Z=0, P=P, delete_checkpoints=delete, value_fn=value_fn, R_of=R_of)
     cb = LoopCallback(be, mon)
     tuner = make_tuner(sym, sch, be, [cb], W, StoppingCriterion(max_num_trials_started=T, max_num_evaluations=E))
     tuner.run()
@@ -53,7 +58,7 @@ def h_ckpt(sym, scheduler="pbt", W=2, T=3, K=1, delete=True, max_t=2, P=8, early
 
 
 ASSUME = [
-    "REAL schedulers (PopulationBasedTraining, promotion-type HyperbandScheduler, SynchronousGeometricHyperbandScheduler) inside the real Tuner.run, wrapped only by a forwarding spy",
+    "REAL schedulers (PopulationBasedTraining, promotion-type HyperbandScheduler, Synchronous(Geometric)HyperbandScheduler) inside the real Tuner.run; their notification methods are wrapped on the instance by a forwarding spy, so the tuner installs the checkpoint-removal callback exactly as for the plain object",
     "ScriptBackend: a trial has a checkpoint once it reported at least one result or received a copy; delete_checkpoint removes it; resume / copy require it",
     "training script with max_resource_attr runs to config[max_resource_attr] and exits; metrics symbolic reals (exact arithmetic)",
     "speculative early removal (early_checkpoint_removal_kwargs) is outside the quick tier",
@@ -72,6 +77,11 @@ def obligations(tier):
     obs.append(Ob("C20.c[sync,W=2,delete]", "props.c20:h_ckpt", dict(scheduler="sync", W=2, T=2 if quick else 3, K=1, delete=True, max_t=2, P=10, E=5),
                   bounds=dict(W=2, trials="<=3" if quick else "<=4", results="<=5" if quick else "<=6", max_t=2), goals=("end",),
                   split=(("k_p2_t0", (0, 1)), ("k_p2_t1", (0, 1)), ("end_p2_t0", (0, 1)), ("end_p2_t1", (0, 1))), budget_s=1800, may_be_incomplete=not quick))
+    # a failed job inside a rung: the not-promoted list handed to the checkpoint-removal callback must not name a promoted trial
+    obs.append(Ob("C20.c[sync,W=3,rungs=(3,1)(1,3),failure]", "props.c20:h_ckpt",
+                  dict(scheduler="sync", W=3, T=3, K=1, delete=True, max_t=3, P=8, E=5, max_fail=1, rungs=[[[3, 1], [1, 3]]]),
+                  bounds=dict(W=3, trials="<=4", results="<=6", rungs="(3,1)(1,3)", failures="<=1"), goals=("end", "failure", "resume"),
+                  split=(("k_p2_t0", (0, 1)), ("k_p2_t1", (0, 1)), ("k_p2_t2", (0, 1))), budget_s=1800))
     obs.append(Ob("C20.d[promotion,no-delete]", "props.c20:h_ckpt", dict(scheduler="promotion", W=2, T=2, K=1, delete=False, max_t=2, P=8),
                   bounds=dict(W=2, T=2, max_t=2, delete_checkpoints=False), goals=("end",), budget_s=1800))
     return obs
